@@ -4,7 +4,7 @@
 From Coq Require Import ZifyBool Permutation Sorted.
 From V.Lib Require Import Base MachInt.
 From V.Gen Require Import C17Consts.
-From V.C17 Require Import Model Spec Corr Wf ProofsArith ProofsShuffle ProofsAnchor ProofsClassify ProofsCanon ProofsPerm ProofsWake ProofsWake2.
+From V.C17 Require Import Model Spec Corr Wf ProofsArith ProofsShuffle ProofsAnchor ProofsClassify ProofsCanon ProofsPerm ProofsWake ProofsWake2 ProofsShift.
 Local Open Scope Z_scope.
 
 (** Every operation is bridged. For wake-ups the harness-side brute-force value [bf] that the
@@ -164,6 +164,20 @@ Lemma wk_eqb_eq x y : wk_eqb x y = true <-> x = y.
 Proof.
   apply list_eqb_spec. intros [a la] [b lb]. unfold pair_eqb. cbn [fst snd].
   rewrite andb_true_iff, Z.eqb_eq, lz_eqb_eq. split; [intros [-> ->]; reflexivity | intros E; inversion E; auto].
+Qed.
+
+Lemma tx_same_eq p q : tx_same p q = true -> q = p.
+Proof.
+  destruct p as [[[[st tr] sched] ex] an], q as [[[[st' tr'] sched'] ex'] an']. unfold tx_same.
+  rewrite !andb_true_iff. intros [[[[H1 H2] H3] H4] H5].
+  apply Z.eqb_eq in H1, H3, H4. apply eqb_prop in H2. subst.
+  destruct an, an'; cbn in H5; try discriminate; [apply Z.eqb_eq in H5; subst|]; reflexivity.
+Qed.
+
+Lemma lstx_eqb_eq x y : list_eqb stx_eqb x y = true -> y = x.
+Proof.
+  revert y. induction x as [|p x IH]; intros [|q y]; cbn; try discriminate; [reflexivity|].
+  rewrite andb_true_iff. intros [H1 H2]. apply tx_same_eq in H1. apply IH in H2. subst. reflexivity.
 Qed.
 
 Lemma bridge c : bridged c = true ->
@@ -339,4 +353,24 @@ Proof.
       apply oz_eqb_eq. reflexivity.
     + destruct (first_infeasible ts) as [id|] eqn:F; [|reflexivity].
       apply (wakeups_infeasible_iff margin jitter tip ts ws) in F. congruence.
+  - (* Shift *)
+    rewrite !andb_true_iff in Hwf. destruct Hwf as [[[[HI Hsv] Hw] Hpre] Hs0].
+    unfold nz32, h32, in_u32, in_range in *.
+    assert (Hwfp : Forall stx_wf pre).
+    { apply Forall_forall. intros t Ht. rewrite forallb_forall in Hpre. specialize (Hpre t Ht).
+      destruct t as [[[[st tr] sched] ex] an]. rewrite !andb_true_iff in Hpre. unfold stx_wf, oin in *.
+      destruct an; lia. }
+    assert (Hs0' : match pre with (_, _, s0, _, _) :: _ => s0 <= served | [] => True end).
+    { destruct pre as [|[[[[st tr] s0] ex] an] rest]; [exact Logic.I | lia]. }
+    destruct o as [[post k]|e|]; cbn [on_ok].
+    + apply dres_ok in Hrun. destruct Hrun as (post' & rest & Hm & Hd & Hk). apply lstx_eqb_eq in Hd. subst post.
+      destruct (advance_overdue_ok oc iv served pre ws post' rest ltac:(lia) Hwfp Hs0' Hm) as (Hok & _ & p & He).
+      rewrite Hok. assert (length ws = (length p + length rest)%nat) by (rewrite He, app_length; reflexivity). lia.
+    + apply dres_err in Hrun. destruct Hrun as [[]|[e' Hm]]. exfalso. revert Hm. unfold advance_overdue.
+      destruct pre as [|[[[[st tr] s0] ex] an] rest]; cbv beta iota; [intros Hm; discriminate Hm|].
+      destruct (sat_add_u32 s0 (overdue_tolerance iv) <? served); [|intros Hm; discriminate Hm].
+      cbn [shift_all].
+      destruct (shift_tx oc iv (served - s0) (st, tr, s0, ex, an) ws) as [[t' r]| |]; try (intros Hm; discriminate Hm).
+      destruct (shift_all oc iv (served - s0) rest r) as [[l' r']| |]; intros Hm; discriminate Hm.
+    + reflexivity.
 Qed.
